@@ -366,6 +366,50 @@ def replay(inp):
     return "RERUN"
 
 
+def scaled_two_views_layer(ck, n_cases):
+    """numpy functions that take two scaled views at once: two coordinates of one object, the same coordinate of two objects, two scaled extra
+    dimensions - equal scales with different offsets, different scales with equal offsets, all different"""
+    import laspy
+    from laspy import ExtraBytesParams
+    fns = {"concatenate": lambda a, b: np.concatenate([a, b]), "concatenate3": lambda a, b: np.concatenate([a, b, a]), "hstack": lambda a, b: np.hstack([a, b]),
+           "stack": lambda a, b: np.stack([a, b]), "column_stack": lambda a, b: np.column_stack([a, b]), "maximum": np.maximum,
+           "append": lambda a, b: np.append(a, b), "subtract": np.subtract, "vstack": lambda a, b: np.vstack([a, b])}
+    for ci in range(n_cases):
+        n = ck.rng.choice([1, 3, 6])
+        rel = ["same_scales_other_offsets", "other_scales_same_offsets", "all_different", "same_scales_other_offsets"][ci % 4]
+        s1 = ck.rng.choice([0.01, 0.5, 0.001])
+        o1 = ck.rng.choice([0.0, 1000.0, -250.5])
+        s2 = s1 if rel == "same_scales_other_offsets" else ck.rng.choice([x for x in (0.01, 0.5, 0.001, 2.0) if x != s1])
+        o2 = o1 if rel == "other_scales_same_offsets" else ck.rng.choice([x for x in (0.0, 1000.0, -250.5, 4.0e6) if x != o1])
+        pair = ["x_y", "x_x_two_objects", "extra_extra"][ci % 3]
+        las = laspy.create(point_format=ck.rng.choice([0, 3, 6]))
+        las.header.scales = np.array([s1, s2, 1.0])
+        las.header.offsets = np.array([o1, o2, 0.0])
+        las.add_extra_dims([ExtraBytesParams(name="ea", type="i4", scales=np.array([s1]), offsets=np.array([o1])),
+                            ExtraBytesParams(name="eb", type="i4", scales=np.array([s2]), offsets=np.array([o2]))])
+        las.points = laspy.ScaleAwarePointRecord.zeros(n, header=las.header)
+        for d in ("X", "Y", "Z", "ea", "eb"):
+            las.points.array[d] = np.array([ck.rng.randrange(-10**5, 10**5) for _ in range(n)], dtype="i4")
+        if pair == "x_y":
+            va, vb = las.x, las.y
+        elif pair == "extra_extra":
+            va, vb = las.ea, las.eb
+        else:
+            other = laspy.create(point_format=las.header.point_format.id)
+            other.header.scales = np.array([s2, s2, 1.0])
+            other.header.offsets = np.array([o2, o2, 0.0])
+            other.points = laspy.ScaleAwarePointRecord.zeros(n, header=other.header)
+            other.points.array["X"] = np.array([ck.rng.randrange(-10**5, 10**5) for _ in range(n)], dtype="i4")
+            va, vb = las.x, other.x
+        pa, pb = np.array(va), np.array(vb)
+        fname = sorted(fns)[ci % len(fns)]
+        base = {"kind": "scaled_two_views", "pair": pair, "relation": rel, "func": fname, "scales": [s1, s2], "offsets": [o1, o2],
+                "raw": [np.asarray(va.array).tolist(), np.asarray(vb.array).tolist()]}
+        ck.count("scaled_two_views:" + rel)
+        compare(ck, f"np.{fname}({pair}: scales {s1}/{s2}, offsets {o1}/{o2})", lambda: fns[fname](va, vb), lambda: fns[fname](pa, pb),
+                dict(base, finding_key="C10:scaled:two_views"))
+
+
 def run(ck):
     ck.rule = ("differential against numpy on the materialised view. cmp layer (exhaustive, both tiers): every mask x 6 comparison "
                "operators x constants -3..max+3, 255, 256, +-2^31, 2^64, -2^70 as Python ints and as numpy scalars of every integer "
@@ -381,6 +425,7 @@ def run(ck):
     kept_view_layer(ck, 60 if q else 1500)
     two_views_layer(ck, 150 if q else 3000)
     scaled_layer(ck, 800 if q else 12000)
+    scaled_two_views_layer(ck, 72 if q else 1800)
     ck.failures.sort(key=lambda f: (f["input"]["kind"] != "cmp", abs(f["input"].get("c", 0))))
     if ck.tier == "thorough":
         ck.leanchecker(["LasModel.Props.C10"])
